@@ -12,6 +12,7 @@
    timeout x connections), (b) validates the recorded network trace against TraceAudit.tla, where TLC infers
    which read failed and every invariant of SshAudit is evaluated on every state.
 """
+import json
 import random
 import struct
 
@@ -600,6 +601,7 @@ def run(tier):
             continue
         # (b) rejected by the trace specification
         ck.violation(reject_signature(res, info, what), '[%s, %s] TraceAudit rejects the run: %s' % (name, what, short(info)), replay)
+    json_leg(ck, tier, scs, meta)
     ck.sample({'archetype': meta[5][0], 'fault': meta[5][1], 'exit': results[5].get('exit'), 'trace': audit.trace_events(results[5])[:25]})
     ck.cov['rule'] = ('TLC: every placement of up to MaxFaults faults over every read of every connection of the FaultFamily archetypes (safety + liveness). '
                       'Replay: three SSH-2 server archetypes x every emitted message x {eof, stall, reset, random bytes, truncations, every length field in '
@@ -607,6 +609,51 @@ def run(tier):
                       'random mutations; every run checked directly and validated against TraceAudit.tla. distinct = (archetype, fault point, fault)')
     ck.assumptions += ['time is virtual: a stall costs exactly the configured timeout', 'SSH-1 transcripts and client audits are exercised in C01/C04, not here']
     return ck.finish()
+
+
+def json_leg(ck, tier, scs, meta):
+    """The same faults with -j: what the peer sends decides how the audit ends, not the output format.  Every fault of the first connection
+    (identification string, KEXINIT - where the error path of the JSON builder is) and a sample of the later ones (quick; all of them in the
+    thorough tier) are run again with -j in place of -n; the directly observable clauses are judged: the run ends, with a status in 0..3,
+    within its time bound, and a run that ends with a report's status prints one JSON document."""
+    pick = []
+    for j, (sc, m) in enumerate(zip(scs, meta)):
+        name, what, point, cfg, skip = m
+        if '-n' not in sc['argv'] or '-M' in sc['argv']:
+            continue
+        first = point is not None and point[0] == 1
+        if first and 'randmut' not in what or tier == 'thorough' or j % 7 == 0:
+            pick.append(j)
+    jscs = [dict(scs[j], argv=['-j' if a == '-n' else a for a in scs[j]['argv']]) for j in pick]
+    n_ok = 0
+    for j, sc, res in zip(pick, jscs, runner.run_many(jscs)):
+        name, what, point, cfg, skip = meta[j]
+        ck.evaluated()
+        if res.get('harness_error'):
+            raise common.Machinery('run failed in the harness: %s' % res['harness_error'])
+        ck.nontrivial((name, what, 'json'))
+        replay = {'archetype': name, 'fault': what, 'argv': sc['argv'], 'exit': res.get('exit'), 'stdout': (res.get('stdout') or '')[-2500:]}
+        direct = None
+        if res.get('hang'):
+            direct = ('hang', 'the audit did not terminate (killed by the harness alarm)')
+        elif res.get('exit') not in (0, 1, 2, 3):
+            exc, loc = rating.crash_signature(res)
+            direct = ('uncaught=%s at=%s' % (exc, loc), 'ended with status %r through %s in %s' % (res.get('exit'), exc, loc))
+        elif res.get('waited', 0) > 5.0 * (res.get('nconn', 0) + 1) + 1e-6:
+            direct = ('unbounded-wait', 'waited %.1f virtual seconds over %d connections' % (res['waited'], res['nconn']))
+        elif must_fail_handshake(what, point) and res.get('exit') != 1:
+            direct = ('incomplete-handshake-accepted', 'the peer never delivered a complete, well-formed KEXINIT, yet the audit ends with status %s' % res.get('exit'))
+        elif res.get('exit') in (0, 2, 3) and '-P' not in sc['argv']:
+            try:
+                json.loads(res.get('stdout') or '')
+            except ValueError:
+                direct = ('json-report-unparsable', 'the audit ends with the status of a report (%s) but standard output is not a JSON document' % res.get('exit'))
+        if direct:
+            ck.violation(direct[0] + ' view=json ' + fault_class(what), '[%s, %s, -j] %s' % (name, what, direct[1]), replay)
+        else:
+            n_ok += 1
+            ck.cov['traces_validated_against_impl'] += 1
+    ck.notes.append('json leg: %d fault scenarios run again with -j (direct clauses), %d conform' % (len(pick), n_ok))
 
 
 def must_fail_handshake(what, point):
